@@ -20,6 +20,12 @@ for line in open(os.path.join(V, 'properties.jsonl')):
 ids = ids or sorted(props)
 
 FOCUS = {
+    '6': ('many obvious sites are used up (see the list below), so read the code paths of the anchors line by line and pick slips '
+          'that survive a checker which already varies units, include flags (False and 0), zero / equal / tiny / huge values, '
+          'construction by re-assignment, header encodings, caller-held arguments and call histories: e.g. a wrong branch taken only '
+          'for one CLASS among several that share code, a default that differs between two entry points, an off-by-one at the LAST '
+          'element, a rounding or comparison that is right except at an exact boundary, a keyword passed positionally, an early '
+          'return that skips a later step, a loop variable reused after the loop, an exception path that leaves partial results'),
     '5': ('look for slips in code that the earlier ideas listed below have NOT touched (helper functions, rarely used keyword arguments, '
           'less common region classes, error and warning paths, the interplay of two classes or two modules), and for slips that show '
           'only for particular VALUES that are legal but easy to forget: zero, negative, equal, empty, one-element, very large or very '
